@@ -81,24 +81,23 @@ Definition result_eqb (a b : result) : bool :=
   exit_eqb (r_exit a) (r_exit b) && (r_time a =? r_time b) && lg_eqb (r_ledger a) (r_ledger b).
 
 Definition switch_table (cfg : deviations) : list (nat * bool * deviations) :=
-  [ (18%nat,  d_timeout0_falsy cfg,
-     {| d_timeout0_falsy := false; d_leak_legacy := d_leak_legacy cfg; d_leak_dm := d_leak_dm cfg;
-        d_now_restarts := d_now_restarts cfg; d_badexpr_leak := d_badexpr_leak cfg; d_none_eager := d_none_eager cfg |});
-    (19%nat,  d_leak_legacy cfg,
-     {| d_timeout0_falsy := d_timeout0_falsy cfg; d_leak_legacy := false; d_leak_dm := d_leak_dm cfg;
-        d_now_restarts := d_now_restarts cfg; d_badexpr_leak := d_badexpr_leak cfg; d_none_eager := d_none_eager cfg |});
+  [
+    (18%nat, d_timeout0_falsy cfg,
+     {| d_timeout0_falsy := false; d_leak_legacy := d_leak_legacy cfg; d_leak_dm := d_leak_dm cfg; d_now_restarts := d_now_restarts cfg; d_badexpr_leak := d_badexpr_leak cfg; d_none_eager := d_none_eager cfg; d_hold_latest := d_hold_latest cfg; d_hold_attr_cancels := d_hold_attr_cancels cfg |});
+    (19%nat, d_leak_legacy cfg,
+     {| d_timeout0_falsy := d_timeout0_falsy cfg; d_leak_legacy := false; d_leak_dm := d_leak_dm cfg; d_now_restarts := d_now_restarts cfg; d_badexpr_leak := d_badexpr_leak cfg; d_none_eager := d_none_eager cfg; d_hold_latest := d_hold_latest cfg; d_hold_attr_cancels := d_hold_attr_cancels cfg |});
     (150%nat, d_leak_dm cfg,
-     {| d_timeout0_falsy := d_timeout0_falsy cfg; d_leak_legacy := d_leak_legacy cfg; d_leak_dm := false;
-        d_now_restarts := d_now_restarts cfg; d_badexpr_leak := d_badexpr_leak cfg; d_none_eager := d_none_eager cfg |});
+     {| d_timeout0_falsy := d_timeout0_falsy cfg; d_leak_legacy := d_leak_legacy cfg; d_leak_dm := false; d_now_restarts := d_now_restarts cfg; d_badexpr_leak := d_badexpr_leak cfg; d_none_eager := d_none_eager cfg; d_hold_latest := d_hold_latest cfg; d_hold_attr_cancels := d_hold_attr_cancels cfg |});
     (151%nat, d_now_restarts cfg,
-     {| d_timeout0_falsy := d_timeout0_falsy cfg; d_leak_legacy := d_leak_legacy cfg; d_leak_dm := d_leak_dm cfg;
-        d_now_restarts := false; d_badexpr_leak := d_badexpr_leak cfg; d_none_eager := d_none_eager cfg |});
+     {| d_timeout0_falsy := d_timeout0_falsy cfg; d_leak_legacy := d_leak_legacy cfg; d_leak_dm := d_leak_dm cfg; d_now_restarts := false; d_badexpr_leak := d_badexpr_leak cfg; d_none_eager := d_none_eager cfg; d_hold_latest := d_hold_latest cfg; d_hold_attr_cancels := d_hold_attr_cancels cfg |});
     (152%nat, d_badexpr_leak cfg,
-     {| d_timeout0_falsy := d_timeout0_falsy cfg; d_leak_legacy := d_leak_legacy cfg; d_leak_dm := d_leak_dm cfg;
-        d_now_restarts := d_now_restarts cfg; d_badexpr_leak := false; d_none_eager := d_none_eager cfg |});
+     {| d_timeout0_falsy := d_timeout0_falsy cfg; d_leak_legacy := d_leak_legacy cfg; d_leak_dm := d_leak_dm cfg; d_now_restarts := d_now_restarts cfg; d_badexpr_leak := false; d_none_eager := d_none_eager cfg; d_hold_latest := d_hold_latest cfg; d_hold_attr_cancels := d_hold_attr_cancels cfg |});
     (153%nat, d_none_eager cfg,
-     {| d_timeout0_falsy := d_timeout0_falsy cfg; d_leak_legacy := d_leak_legacy cfg; d_leak_dm := d_leak_dm cfg;
-        d_now_restarts := d_now_restarts cfg; d_badexpr_leak := d_badexpr_leak cfg; d_none_eager := false |}) ].
+     {| d_timeout0_falsy := d_timeout0_falsy cfg; d_leak_legacy := d_leak_legacy cfg; d_leak_dm := d_leak_dm cfg; d_now_restarts := d_now_restarts cfg; d_badexpr_leak := d_badexpr_leak cfg; d_none_eager := false; d_hold_latest := d_hold_latest cfg; d_hold_attr_cancels := d_hold_attr_cancels cfg |});
+    (154%nat, d_hold_latest cfg,
+     {| d_timeout0_falsy := d_timeout0_falsy cfg; d_leak_legacy := d_leak_legacy cfg; d_leak_dm := d_leak_dm cfg; d_now_restarts := d_now_restarts cfg; d_badexpr_leak := d_badexpr_leak cfg; d_none_eager := d_none_eager cfg; d_hold_latest := false; d_hold_attr_cancels := d_hold_attr_cancels cfg |});
+    (155%nat, d_hold_attr_cancels cfg,
+     {| d_timeout0_falsy := d_timeout0_falsy cfg; d_leak_legacy := d_leak_legacy cfg; d_leak_dm := d_leak_dm cfg; d_now_restarts := d_now_restarts cfg; d_badexpr_leak := d_badexpr_leak cfg; d_none_eager := d_none_eager cfg; d_hold_latest := d_hold_latest cfg; d_hold_attr_cancels := false |}) ].
 
 (* the switches that are on and whose removal changes what the Model predicts for this case; when several
    switches mask each other (no single removal changes anything) all switches that are on are named *)
